@@ -153,7 +153,7 @@ def parse_timestamps(df, col):
     """The black box of the timestamp pipeline: what pd.to_datetime returns for the
     column, as epoch seconds / None (NaT).  Same call as the mapper makes."""
     import pandas as pd
-    fmt = None if col["fmt"] in (None, "datetime64") else col["fmt"]
+    fmt = None if col["fmt"] in (None, "datetime64") else col["fmt"]     # the parse of the raw cells themselves
     ser = pd.to_datetime(df[col["name"]], format=fmt, errors="coerce")
     out = []
     for v in ser.tolist():
@@ -168,6 +168,12 @@ def parse_timestamps(df, col):
 # ------------------------------------------------------------------ public-signature forms
 SEP_FORMS = ["dict", "single", "partial-dict"]
 DEVICES = ["none", "str", "device"]
+
+
+def time_format_of(col):
+    """the time format CONFIGURED for a timestamp column (as dfgen.build_dataset does): the column's own format for
+    text columns; for a column already held as datetime64 whatever dfgen drew as `cfg_fmt` (it must not matter)"""
+    return col.get("cfg_fmt") if col["fmt"] == "datetime64" else col["fmt"]
 
 
 def draw_forms(rng, desc):
@@ -212,8 +218,7 @@ def make_dataset(desc, df=None, forms=None, stubs=None):
     sep, used["sep"] = _pattern(forms.get("sep", "dict"), {c["name"]: c["sep"] for c in desc["cols"]
                                                             if c["stype"] == "multicategorical"})
     fmt, used["fmt"] = _pattern(forms.get("fmt", "dict"),
-                                {c["name"]: (None if c["fmt"] in (None, "datetime64") else c["fmt"])
-                                 for c in desc["cols"] if c["stype"] == "timestamp"})
+                                {c["name"]: time_format_of(c) for c in desc["cols"] if c["stype"] == "timestamp"})
     stubs = stubs if stubs is not None else {}
     te, tt, ie = {}, {}, {}
     for c in desc["cols"]:
